@@ -207,10 +207,16 @@ def rule_r3(prog, rep, units, om, rid='R3'):
                         bad.append((x.get('_line'), '%s = %s [%s]' % (canon(lhs), canon(rhs)[:40], t)))
         return bad
 
+    # static pointer-returning helpers without a copy flag: not obligations themselves, but callers may route through them
+    helpers = []
+    for rel in units:
+        for f in prog.funcs_in(rel):
+            if f.static and f.body is not None and f.key not in flagged and f.key not in always and (f.rettype or '').rstrip().endswith('*'):
+                helpers.append(f.key)
     results = {}
     for _ in range(6):
         changed = False
-        for key in list(flagged) + list(always):
+        for key in list(flagged) + list(always) + helpers:
             if key in good:
                 continue
             f = prog.funcs[key]
@@ -482,3 +488,33 @@ def _stored_before(f, node, lhs, rhs):
                 if y.get('kind') == 'BinaryOperator' and y.get('opcode') == '=' and canon(children(y)[0]) == lhs and canon(children(y)[1]) == rhs:
                     return True
     return False
+
+
+def rule_r2_bin(prog, rep, units, rid='R2-bin'):
+    """Binary payloads (void* fields that travel with a size field) are duplicated with byte-counted primitives; a
+    string duplication (strdup/strndup) stops at the first NUL byte, so the copy is shorter than the size reported with it."""
+    rep.rule(rid, 'binary payload fields (void *) are never duplicated with strdup/strndup: the copy would stop at the first NUL '
+                  'while the stored size is reported')
+    for rel in units:
+        for f in sorted(prog.funcs_in(rel), key=lambda x: x.line or 0):
+            if f.body is None:
+                continue
+            for x in walk(f.body):
+                if x.get('kind') != 'CallExpr' or prog.callee_name(x) not in ('strdup', 'strndup'):
+                    continue
+                a = children(x)[1] if len(children(x)) > 1 else None
+                if a is None:
+                    continue
+                # strip casts down to the designated object
+                e = a
+                while e.get('kind') in ('ImplicitCastExpr', 'ParenExpr', 'CStyleCastExpr') and e.get('inner'):
+                    e = e['inner'][0]
+                if e.get('kind') != 'MemberExpr':
+                    continue
+                rep.instance(rid)
+                t = (qtype(e) or '').replace('const ', '').strip()
+                ok = t != 'void *'
+                rep.oblige(rid, ok, {'function': f.name, 'line': x.get('_line'), 'call': canon(x)[:60], 'field_type': t})
+                if not ok:
+                    rep.violation(rid, f, x.get('_line'), 'strdup:%s' % canon(e), '%s duplicates the binary payload %s as a string: the '
+                                  'copy ends at the first NUL byte although the stored size is what callers are told' % (canon(x)[:50], canon(e)))
